@@ -1117,7 +1117,7 @@ class Operations:
             nodes2ins += times * [knot]
         matrix_knotins = Operations.knot_insert(knotvectora, nodes2ins)
 
-        finalresult = np.array(matrix_knotins) @ matrix_deginc
+        finalresult = np.array(matrix_knotins, dtype="object") @ matrix_deginc
         return totuple(finalresult)
 
 
